@@ -411,8 +411,14 @@ func Drive(prop, tier string, seed uint64) int {
 		for _, h := range tot.Harness {
 			fmt.Fprintln(os.Stderr, "harness error:", trunc(h, 2000))
 		}
-		fmt.Fprintln(os.Stderr, "harness failure (this is not a property verdict)")
-		return 2
+		if len(tot.Viols) == 0 {
+			fmt.Fprintln(os.Stderr, "harness failure (this is not a property verdict)")
+			return 2
+		}
+		// some runs could not even be set up while others found violations (a defect that makes
+		// entities unreadable does both): the violations are still shrunk and replayed in a fresh
+		// process below, and only a confirmed one is reported
+		fmt.Fprintln(os.Stderr, "harness errors in some runs; going on with the violations that were found")
 	}
 
 	findings, err := LoadFindings(filepath.Join(VerifDir, "known_findings.json"))
